@@ -348,6 +348,47 @@ func init() {
 		if err != nil {
 			return "", err
 		}
+		// mod_header variables: keys of the VariableHandlers table, and the `%name` entries of the doc's variable table
+		hp2, err := c49LoadPkg(repo, "bfe_modules/mod_header")
+		if err != nil {
+			return "", err
+		}
+		vh, ok := hp2.values["VariableHandlers"].(*ast.CompositeLit)
+		if !ok {
+			return "", fmt.Errorf("mod_header.VariableHandlers is not a composite literal")
+		}
+		var hvars []string
+		for _, el := range vh.Elts {
+			kv, ok := el.(*ast.KeyValueExpr)
+			if !ok {
+				return "", fmt.Errorf("VariableHandlers entry is not key: value")
+			}
+			k, ok := hp2.str(kv.Key, nil)
+			if !ok {
+				return "", fmt.Errorf("VariableHandlers key is not a string")
+			}
+			hvars = append(hvars, k)
+		}
+		sort.Strings(hvars)
+		mdb, err := ioutil.ReadFile(filepath.Join(repo, "docs/en_us/modules/mod_header/mod_header.md"))
+		if err != nil {
+			return "", err
+		}
+		var dvars []string
+		for _, line := range strings.Split(string(mdb), "\n") {
+			t := strings.TrimSpace(line)
+			if !strings.HasPrefix(t, "|") {
+				continue
+			}
+			c := strings.TrimSpace(strings.Split(strings.Trim(t, "|"), "|")[0])
+			if strings.HasPrefix(c, "%") && len(c) > 1 {
+				dvars = append(dvars, c[1:])
+			}
+		}
+		sort.Strings(dvars)
+		if len(dvars) == 0 {
+			return "", fmt.Errorf("mod_header.md: no `| %%variable |` rows")
+		}
 		dRw, err := c49DocActions(repo, "docs/en_us/modules/mod_rewrite/mod_rewrite.md")
 		if err != nil {
 			return "", err
@@ -371,6 +412,8 @@ func init() {
 		fmt.Fprintf(&b, "/-- docs/en_us/modules/mod_rewrite/mod_rewrite.md, table `### Actions` -/\ndef rewriteDocumented : List String := %s\n\n", c49StrList(dRw))
 		fmt.Fprintf(&b, "/-- docs/en_us/modules/mod_header/mod_header.md, table `### Actions` -/\ndef headerDocumented : List String := %s\n\n", c49StrList(dHd))
 		fmt.Fprintf(&b, "/-- docs/en_us/modules/mod_redirect/mod_redirect.md, table `### Actions` -/\ndef redirectDocumented : List String := %s\n", c49StrList(dRd))
+		fmt.Fprintf(&b, "\n/-- keys of mod_header.VariableHandlers, sorted -/\ndef headerVariables : List String := %s\n", c49StrList(hvars))
+		fmt.Fprintf(&b, "\n/-- `%%name` rows of the variable table of mod_header.md, sorted -/\ndef headerVariablesDocumented : List String := %s\n", c49StrList(dvars))
 		b.WriteString(footer("C49"))
 		return b.String(), nil
 	})
